@@ -29,6 +29,7 @@ NEIGHBOUR_KINDS = [
     "levels.digits", "meas_pt.tiny", "domain.tiny", "z.tiny", "profiles.tiny", "profiles.elem", "z.elem", "halo.tiny", "srf_bg_conc.tiny",
     # representations of the same values (results identical; exercises effectiveness)
     "levels.asarray", "repr.np", "repr.int",
+    "srf_flx.transpose", "levels.samelen",
 ]
 KIND_TO_PARAM = {k: k.split(".")[0] for k in NEIGHBOUR_KINDS}
 SAME_RESULT_KINDS = {"levels.asarray", "repr.np", "repr.int", "srf_flx.values"}
@@ -317,6 +318,21 @@ def neighbour(spec, kind, rng):
         if nz < 3:
             return None
         s["z_elem"] = [rng.randrange(nz), rng.choice([0.3, 0.6])]
+    elif kind == "srf_flx.transpose":
+        if spec["nx"] == spec["ny"]:
+            return None
+        s["nx"], s["ny"] = spec["ny"], spec["nx"]
+    elif kind == "levels.samelen":
+        cur = _levels_list(spec)
+        if not isinstance(spec["levels"], list) or len(cur) >= nz:
+            return None
+        for _ in range(10):
+            lv = sorted(rng.sample(range(nz), len(cur)))
+            if lv != sorted(cur):
+                s["levels"] = lv
+                break
+        else:
+            return None
     elif kind == "levels.asarray":
         if isinstance(spec["levels"], dict):
             return None
